@@ -60,7 +60,33 @@ def alphabet():
     nf = dict(rewards=[0, 0], players=[PR, PR], transition_list=[[(1, 1)], [(1, 1)]], final_states=[])
     # non-ASCII action names (the reader must decode the file as it was written: UTF-8)
     x["transition_list"][0] = [("\u03b1_1", 1), ("\u00f1b", 2)]
-    return [("g", g), ("x", x), ("game_a", game_a), ("d_p1", d), ("lp", lp), ("x_no_prune", u1), ("g_1", u2), ("m_1", m1), ("b2", m2), ("nf", nf)]
+    # a well-formed game and the same description typed differently ("twins"): three malformed ones (a successor index written 2.0,
+    # transitions written as lists, a transition list written as a tuple) and a legal one (1.0 / True for 1, final states as a tuple);
+    # whatever each gives alone, it must give next to its twins
+    tw = dict(rewards=[0, 2, 1, 0, 0], players=[P1, PR, PR, PR, PR],
+              transition_list=[[("a", 1), ("b", 2)], [(0.5, 3), (0.5, 4)], [(0.5, 3), (0.5, 4)], [(1, 3)], [(1, 4)]], final_states=[3])
+    tw_float = copy.deepcopy(tw)
+    tw_float["transition_list"][0] = [("a", 1), ("b", 2.0)]
+    tw_lists = copy.deepcopy(tw)
+    tw_lists["transition_list"][0] = [["a", 1], ["b", 2]]
+    tw_tuple = copy.deepcopy(tw)
+    tw_tuple["transition_list"][3] = ((1, 3),)
+    tw_legal = copy.deepcopy(tw)
+    tw_legal["rewards"] = [0, 2.0, True, 0.0, False]
+    tw_legal["transition_list"][3] = [(1.0, 3)]
+    tw_legal["transition_list"][4] = [(True, 4)]
+    tw_legal["final_states"] = (3,)
+    return [("g", g), ("x", x), ("game_a", game_a), ("d_p1", d), ("lp", lp), ("x_no_prune", u1), ("g_1", u2), ("m_1", m1), ("b2", m2), ("nf", nf),
+            ("tw", tw), ("tw_float", tw_float), ("tw_lists", tw_lists), ("tw_tuple", tw_tuple), ("tw_legal", tw_legal)]
+
+
+def pair_alphabet(stride=1, offset=0):
+    """the family U-PAIR under the names u000, u001, ...: used for all ordered two-game batches"""
+    from . import universe as U
+    fam = U.U_PAIR_games()
+    if stride > 1:
+        fam = fam[offset % stride::stride]
+    return [("u%03d" % i, g) for i, g in enumerate(fam)]
 
 
 def count_transitions(game):
@@ -82,7 +108,12 @@ def solo(game, prune):
 
 
 def solo_references(games):
-    """solo results of every game of the alphabet in both modes, computed in a forked fresh process"""
+    """solo results of every game in both modes, each game in a forked process of its own (no game is solved after another one)"""
+    from . import par
+    return {name: par.in_forked_child(lambda: {True: solo(g, True), False: solo(g, False)}) for name, g in games}
+
+
+def _solo_references_one_child(games):
     r, w = os.pipe()
     pid = os.fork()
     if pid == 0:
